@@ -196,6 +196,44 @@ func c16Check(h []byte, via string) (kind, msg string) {
 			return "", "first profile not readable: n/a"
 		}
 		p, err, pan = readProfile(cr)
+	case "second-after-odd-length": // the first profile's tag data ends at an offset that is no multiple of four
+		other := append([]byte{}, h...)
+		for i := range other {
+			if i < 36 || i >= 40 {
+				other[i] ^= 0xFF
+			}
+		}
+		var ohdr [128]byte
+		copy(ohdr[:], other)
+		odd := 1 + int(h[0]^h[127])%3
+		first, _ := imggen.ICCSpec{Header: ohdr, KeepSig: true, KeepSize: true, Tags: []imggen.ICCTag{{Sig: "cprt", Data: make([]byte, 4+odd)}}}.Build()
+		if len(first)%4 == 0 {
+			return "", "first profile came out aligned: n/a"
+		}
+		br := bytes.NewReader(append(append([]byte{}, first...), prof...))
+		if _, e1, p1 := readProfile(br); e1 != nil || p1 != nil {
+			return "", "first profile not readable: n/a"
+		}
+		// (the first profile's size field says len(first); bytes beyond it are not its own)
+		p, err, pan = readProfile(br)
+	case "same-reader-after-rejected": // one ProfileReader: a header without the file signature is turned down, the caller moves on to the next record
+		bad := append([]byte{}, h...)
+		copy(bad[36:40], "ACSP")
+		br := bytes.NewReader(append(append([]byte{}, bad[:128]...), prof...))
+		pr := icc.NewProfileReader(br)
+		func() {
+			defer func() {
+				if x := recover(); x != nil {
+					pan = x
+				}
+			}()
+			if _, e1 := pr.ReadProfile(); e1 == nil {
+				err = fmt.Errorf("header without the file signature accepted")
+				return
+			}
+			_, _ = br.Seek(128, io.SeekStart)
+			p, err = pr.ReadProfile()
+		}()
 	case "data-asked-thrice": // ICCProfile() is an accessor: the third call gives what the first gave
 		md := &meta.Data{}
 		md.SetICCProfileData(prof)
@@ -470,7 +508,7 @@ func runC16(r *core.Run) {
 		}
 		r.AddEvals(1)
 		if i%17 == 0 {
-			for _, via := range []string{"png", "bufio@4000", "short-reads", "bytes.Reader@offset", "strings.Reader@offset", "bytes.Buffer", "section", "second-in-reader", "after-rejected", "data-reused", "reader-reused", "second-in-custom-reader", "data-asked-thrice"} {
+			for _, via := range []string{"png", "bufio@4000", "short-reads", "bytes.Reader@offset", "strings.Reader@offset", "bytes.Buffer", "section", "second-in-reader", "after-rejected", "data-reused", "reader-reused", "second-in-custom-reader", "data-asked-thrice", "second-after-odd-length", "same-reader-after-rejected"} {
 				if kind, msg := c16Check(h, via); kind != "" {
 					r.Violate("header", kind+"/"+via, msg, c16Case{Header: hex.EncodeToString(h), Via: via})
 				}
